@@ -872,3 +872,369 @@ func ruleSplitTokensAreOneBlock(c *core.Ctx, rule string) {
 	}
 	c.Floor(rule, "token-returning exits of the split function", n, 2)
 }
+
+// ---- an entry is made before it is reported done ----------------------------------------------------------
+
+// ruleEntryMadeBeforeDone (R19.10): the literal of ExtractZip that handles one entry (the one calling the
+// tree-making helpers Mkdir / Symlink / CopyFile) returns success only after one of them was called - or under
+// settings.DryRun. The worker advances the resume marker and reports the entry done right after that literal
+// returns nil: an entry whose making is put off (queued for later) is behind the marker before it exists, and
+// an extraction restarted from the marker never makes it.
+func ruleEntryMadeBeforeDone(c *core.Ctx, rule string, ez *ssa.Function) {
+	c.Rule(rule, "the per-entry literal of ExtractZip succeeds only after the entry was made (or under DryRun)")
+	isMaker := func(in ssa.Instruction) bool {
+		cl, ok := in.(*ssa.Call)
+		if !ok {
+			return false
+		}
+		switch core.CalleeName(cl) {
+		case "archiver.Mkdir", "archiver.Symlink", "archiver.CopyFile":
+			return true
+		}
+		return false
+	}
+	var per *ssa.Function
+	for _, f := range core.WithAnons(ez) {
+		if f == ez {
+			continue
+		}
+		n := 0
+		core.Instrs(f, func(in ssa.Instruction) {
+			if isMaker(in) {
+				n++
+			}
+		})
+		if n >= 2 {
+			per = f
+		}
+	}
+	if per == nil {
+		c.Missing(rule, core.FnName(ez), "no function literal calling two of Mkdir / Symlink / CopyFile found")
+		return
+	}
+	dryEdge := func(b, s2 *ssa.BasicBlock) bool {
+		if len(b.Instrs) == 0 || len(b.Succs) != 2 {
+			return false
+		}
+		ifi, ok := b.Instrs[len(b.Instrs)-1].(*ssa.If)
+		if !ok {
+			return false
+		}
+		for _, o := range core.Origins(ifi.Cond) {
+			if _, n, ok := core.FieldOf(o); ok && n == "DryRun" {
+				return s2 == b.Succs[0]
+			}
+			if ld, ok := o.(*ssa.UnOp); ok && ld.Op == token.MUL {
+				if _, n, ok := core.FieldOf(ld.X); ok && n == "DryRun" {
+					return s2 == b.Succs[0]
+				}
+			}
+		}
+		return false
+	}
+	n := 0
+	for _, rs := range successReturns(per) {
+		n++
+		p := core.FindPathSkipping(per, nil, isInstr(rs.Ret), isMaker, dryEdge)
+		c.Check(p == nil, rule, core.FnName(per), "success return behind Mkdir / Symlink / CopyFile", core.InstrPos(rs.Ret),
+			"every path to this return (DryRun apart) calls one of the helpers that make the entry",
+			"an entry can be handled 'successfully' without having been made (its making is put off, queued, left to someone else): the worker then moves the resume marker past it and reports it done, so an extraction that is interrupted and restarted from the marker skips it for good").Path = c.P.PathStrings(p)
+	}
+	c.Floor(rule, "success returns of the per-entry literal", n, 1)
+	// ... and the helpers are called nowhere else in ExtractZip: what a worker did not make before the marker moved is not made later
+	for _, f := range core.WithAnons(ez) {
+		if f == per {
+			continue
+		}
+		core.Instrs(f, func(in ssa.Instruction) {
+			if isMaker(in) && f == ez {
+				c.Bad(rule, core.FnName(ez), "entries are made by the worker that marks them done: "+core.CalleeName(in.(*ssa.Call)), core.InstrPos(in),
+					"ExtractZip itself makes entries outside the per-entry literal (after the workers, say): whatever it makes there was already behind the resume marker")
+			}
+		})
+	}
+}
+
+// ---- no method is invoked on a writer that was never obtained -------------------------------------------
+
+// ruleNoInvokeOnUnsetWriter (R10.nil): in the patcher's series functions the entry writer lives in a local
+// variable that starts nil and is assigned on some paths only (a whole-file op needs no writer). When that
+// variable is a memory cell (a literal captures it), every method invoked on it - in the function itself, or in
+// a literal at each place the literal is called - is reached from the variable's declaration only through an
+// assignment to it, or sits behind a test of the variable against nil. An error path that asks the unset writer
+// where it stands turns a truncated patch into a nil dereference.
+func ruleNoInvokeOnUnsetWriter(c *core.Ctx, rule string) {
+	c.Rule(rule, "no method is invoked on the series' entry writer where it can still be unset")
+	n, nCells := 0, 0
+	for _, name := range []string{"savingPatcher.processRsync", "savingPatcher.processBsdiff"} {
+		fn := c.P.Fn("pwr/patcher", name)
+		if fn == nil {
+			c.Missing(rule, "pwr/patcher."+name, "not found")
+			continue
+		}
+		core.Instrs(fn, func(in ssa.Instruction) {
+			cell, ok := in.(*ssa.Alloc)
+			if !ok || !cell.Heap {
+				return
+			}
+			pt, ok := cell.Type().(*types.Pointer)
+			if !ok {
+				return
+			}
+			if _, isIface := pt.Elem().Underlying().(*types.Interface); !isIface || !strings.HasSuffix(core.TypeName(pt.Elem()), "EntryWriter") {
+				return
+			}
+			nCells++
+			isStore := func(x ssa.Instruction) bool {
+				st, ok := x.(*ssa.Store)
+				return ok && core.CellRoot(st.Addr) == ssa.Value(cell) && !core.IsNilConst(st.Val)
+			}
+			nilGuarded := func(x ssa.Instruction) bool {
+				return hasGuard(x, func(g core.Guard) bool {
+					bo, ok := g.Cond.(*ssa.BinOp)
+					if !ok || (bo.Op != token.EQL && bo.Op != token.NEQ) {
+						return false
+					}
+					var t ssa.Value
+					if core.IsNilConst(bo.Y) {
+						t = bo.X
+					} else if core.IsNilConst(bo.X) {
+						t = bo.Y
+					} else {
+						return false
+					}
+					ld, ok := t.(*ssa.UnOp)
+					if !ok || ld.Op != token.MUL || core.CellRoot(ld.X) != ssa.Value(cell) {
+						return false
+					}
+					return (bo.Op == token.NEQ) == g.Val
+				})
+			}
+			for _, u := range core.CellUses(cell) {
+				ld, ok := u.(*ssa.UnOp)
+				if !ok || ld.Op != token.MUL || ld.Referrers() == nil {
+					continue
+				}
+				for _, r := range *ld.Referrers() {
+					cl, ok := r.(ssa.CallInstruction)
+					if !ok || !cl.Common().IsInvoke() || cl.Common().Value != ssa.Value(ld) {
+						continue
+					}
+					inv := r
+					n++
+					okSite, where := true, ""
+					if nilGuarded(inv) {
+						// tested right there
+					} else if inv.Parent() == fn {
+						if p := core.FindPath(fn, cell, isInstr(inv), isStore); p != nil {
+							okSite, where = false, "in the function itself"
+						}
+					} else {
+						// in a literal: every direct call of it; a literal that is handed on (deferred, passed) counts where it is made
+						lit := inv.Parent()
+						core.Instrs(fn, func(x ssa.Instruction) {
+							site := false
+							switch y := x.(type) {
+							case *ssa.Call:
+								site = calledFunc(y) == lit
+							case *ssa.MakeClosure:
+								if y.Fn == ssa.Value(lit) && y.Referrers() != nil {
+									for _, rr := range *y.Referrers() {
+										if cc, isCall := rr.(ssa.CallInstruction); isCall && cc.Common().Value == ssa.Value(y) {
+											continue
+										}
+										if _, isDbg := rr.(*ssa.DebugRef); isDbg {
+											continue
+										}
+										site = true // escapes: handed to something that will call it
+									}
+								}
+							}
+							if site && okSite {
+								if p := core.FindPath(fn, cell, isInstr(x), isStore); p != nil {
+									okSite, where = false, "in a literal that is called (or handed on) at "+c.P.Pos(core.InstrPos(x))
+								}
+							}
+						})
+					}
+					c.Check(okSite, rule, core.FnName(fn), "method "+cl.Common().Method.Name()+" invoked on the entry writer only once it is set", core.InstrPos(inv),
+						"every path from the variable's declaration to this invocation assigns the writer (or the invocation is behind a nil test)",
+						"a method is invoked on the entry writer "+where+" on a path where no writer was obtained yet (a series that opens with a whole-file op never gets one): a read error or a missing end marker there becomes a nil pointer dereference instead of an error")
+				}
+			}
+		})
+	}
+	if nCells == 0 {
+		// the writer is an ordinary local of both functions (no literal captures it): nothing for this rule to look at
+		c.Ok(rule, "pwr/patcher", "the series' entry writer is not held in a cell", token.NoPos, "no function literal captures the writer variable")
+		return
+	}
+	c.Floor(rule, "methods invoked on a series' entry writer held in a cell", n, 3)
+}
+
+// ---- the healer removes non-recursively only what it has seen not to be a directory --------------------------
+
+// ruleHealerRemovesWhatItSaw (R06.8): damage can put anything at an entry's path - a non-empty directory where a
+// file was signed, too. In the methods of the archive healer (function literals included) a plain os.Remove is
+// reached only where an Lstat's IsDir() came out false; whatever may be a directory is removed with RemoveAll
+// (or left to the pool, whose writer does that). os.Remove of a non-empty directory fails, and with it the
+// healing that the property says terminates without error for every kind swap.
+func ruleHealerRemovesWhatItSaw(c *core.Ctx, rule string) {
+	c.Rule(rule, "the healer removes non-recursively only what it has seen not to be a directory")
+	n, nFn := 0, 0
+	for _, top := range c.P.SrcFuncs() {
+		if top.Parent() != nil || !strings.HasSuffix(core.PkgPathOf(top), "/pwr") || !strings.Contains(core.FnName(top), "ArchiveHealer") {
+			continue
+		}
+		nFn++
+		for _, fn := range core.WithAnons(top) {
+			core.Instrs(fn, func(in ssa.Instruction) {
+				cl, ok := in.(*ssa.Call)
+				if !ok || core.CalleeName(cl) != "os.Remove" {
+					return
+				}
+				n++
+				notDir := hasGuard(in, func(g core.Guard) bool {
+					c2, ok := g.Cond.(*ssa.Call)
+					return ok && c2.Call.IsInvoke() && c2.Call.Method.Name() == "IsDir" && !g.Val
+				})
+				c.Check(notDir, rule, core.FnName(top), "os.Remove only of something seen not to be a directory", core.InstrPos(in),
+					"reached only through the outcome !IsDir() of a look at the path", "the healer removes a path non-recursively without having seen that no directory stands there: where damage put a non-empty directory in a file's place the removal fails ('directory not empty') and the healing ends in an error, the file and everything queued after it unrepaired")
+			})
+		}
+	}
+	c.Floor(rule, "methods of the archive healer", nFn, 4)
+	c.Floor(rule, "os.Remove calls in the archive healer", n, 2)
+}
+
+// ---- what is hashed as a block was read in full -----------------------------------------------------------
+
+// ruleHashedBlocksAreReadInFull (R04.8): a buffer handed to HashBlock / uniqueHash / βhash is never cut at the
+// count a single Read returned. One Read may come back short of what is there (a zip entry is inflated 32 KiB
+// at a time): the hash then covers a prefix of the block, and this producer's signature disagrees with the
+// other's and with the content. Counts from io.ReadFull / io.ReadAtLeast, and tokens of the block scanner, are
+// what the producers use.
+func ruleHashedBlocksAreReadInFull(c *core.Ctx, rule string) {
+	c.Rule(rule, "no block is hashed at the length a single Read returned")
+	n := 0
+	for _, top := range c.P.SrcFuncs() {
+		pk := core.PkgPathOf(top)
+		if top.Parent() != nil || (!strings.HasSuffix(pk, "/pwr") && !strings.HasSuffix(pk, "/wsync")) {
+			continue
+		}
+		for _, fn := range core.WithAnons(top) {
+			core.Instrs(fn, func(in ssa.Instruction) {
+				cl, ok := in.(*ssa.Call)
+				if !ok {
+					return
+				}
+				nm := core.CalleeName(cl)
+				if !strings.HasSuffix(nm, ".HashBlock") && !strings.HasSuffix(nm, ".uniqueHash") && nm != "wsync.βhash" {
+					return
+				}
+				arg := cl.Call.Args[len(cl.Call.Args)-1]
+				n++
+				single := ""
+				for _, o := range core.Origins(arg) {
+					sl, ok := o.(*ssa.Slice)
+					if !ok || sl.High == nil {
+						continue
+					}
+					for _, h := range core.Origins(sl.High) {
+						ex, ok := h.(*ssa.Extract)
+						if !ok || ex.Index != 0 {
+							continue
+						}
+						rc, ok := ex.Tuple.(*ssa.Call)
+						if !ok {
+							continue
+						}
+						if rc.Call.IsInvoke() && rc.Call.Method.Name() == "Read" {
+							single = "a Read of " + core.Describe(rc.Call.Value)
+						} else if f := rc.Call.StaticCallee(); f != nil && f.Name() == "Read" && f.Signature.Recv() != nil {
+							single = core.CalleeName(rc)
+						}
+					}
+				}
+				c.Check(single == "", rule, core.FnName(top), "buffer hashed by "+nm+" is not cut at a single Read's count", core.InstrPos(in),
+					"the length hashed does not come from one Read call", "the block that is hashed is cut at the count returned by "+single+": a single Read may deliver less than is there (zip entries are inflated 32 KiB at a time), so the hash - and the ShortSize - can describe a prefix of the file's block; the signature then disagrees with the one made while diffing, and an undamaged build does not validate against it")
+			})
+		}
+	}
+	c.Floor(rule, "hashing calls in pwr and wsync", n, 3)
+}
+
+// ---- a block counts as checked only when that block was checked -------------------------------------------
+
+// ruleVerdictsAreNotExtrapolated (R09.9): the safekeeper remembers which blocks it has validated so as not to
+// hash them again. Whether the validation of a block is skipped must not be decided by an *ordering* test on
+// the block index ("below the highest block that passed"): blocks are read in whatever order the patch reuses
+// them, so an earlier block that was never hashed would pass as checked. The guards of the call that judges
+// the block are searched (through merged flags and expanded helpers) for <, <=, >, >= on the block index.
+func ruleVerdictsAreNotExtrapolated(c *core.Ctx, rule string) {
+	c.Rule(rule, "whether a block's validation is skipped is not decided by an ordering test on the block index")
+	vb := c.P.Fn("pwr", "safeKeeper.validateBlock")
+	if vb == nil {
+		c.Missing(rule, "pwr.(*safeKeeper).validateBlock", "not found")
+		return
+	}
+	n := 0
+	for _, in := range allInstrs(vb, callLikeInvoke("ValidateAsError")) {
+		cl := in.(ssa.CallInstruction)
+		args := cl.Common().Args
+		if len(args) < 2 {
+			continue
+		}
+		idx := core.StripConv(args[len(args)-2])
+		n++
+		isIdx := func(v ssa.Value) bool {
+			for _, o := range core.Origins(v) {
+				if core.StripConv(o) == idx || sameExpr(o, idx) {
+					return true
+				}
+			}
+			return false
+		}
+		bad := ""
+		seen := map[ssa.Value]bool{}
+		var walk func(v ssa.Value, d int)
+		walk = func(v ssa.Value, d int) {
+			if v == nil || d > 8 || seen[v] || bad != "" {
+				return
+			}
+			seen[v] = true
+			switch x := v.(type) {
+			case *ssa.BinOp:
+				switch x.Op {
+				case token.LSS, token.LEQ, token.GTR, token.GEQ:
+					if isIdx(x.X) || isIdx(x.Y) {
+						bad = core.Describe(x)
+					}
+				case token.LAND, token.LOR, token.AND, token.OR:
+					walk(x.X, d+1)
+					walk(x.Y, d+1)
+				}
+			case *ssa.UnOp:
+				if x.Op == token.NOT {
+					walk(x.X, d+1)
+				} else if x.Op == token.MUL {
+					for _, o := range core.Origins(x) {
+						if o != ssa.Value(x) {
+							walk(o, d+1)
+						}
+					}
+				}
+			case *ssa.Phi:
+				for _, e := range x.Edges {
+					walk(e, d+1)
+				}
+			}
+		}
+		for _, g := range core.Guards(in) {
+			walk(g.Cond, 0)
+		}
+		c.Check(bad == "", rule, core.FnName(vb), "skipping the validation of a block is not decided by an ordering test on its index", core.InstrPos(in),
+			"no <, <=, >, >= on the block index among what decides whether the block is judged", "whether this block is validated is decided by "+bad+": a block whose index lies below (above) some remembered mark passes as checked although it was never hashed - the blocks of an old file are read in the order the patch reuses them, so damage in an earlier block that is read later goes unnoticed and the patch applies, silently wrong")
+	}
+	c.Floor(rule, "calls that judge a block in validateBlock", n, 1)
+}
